@@ -7,21 +7,29 @@ BINOPS = ['+', '-', '*', '/', '//', '%', '**', '<<', '>>', '|', '^', '&', '@']
 CMPOPS = ['<', '<=', '>', '>=', '==', '!=', 'is', 'is not', 'in', 'not in']
 UNOPS = ['-', '+', '~', 'not ']
 ATTRS = ['m', 'n', 'val']
+EXC_NAMES = ['Exception', 'TypeError', 'KeyError', 'LookupError']      # builtins: every name read is bound
+EXC_VARS = ['e1', 'e2']        # `except T as e1`: unbound again after the clause, so never a parameter name
 
 
 class Gen(object):
     """profile 'model': only constructs of the Coq model; 'wide': + slices, ** entries, tuple
     targets, delete, try, several with-items, attribute with-targets;  lazy: probability of a
-    BoolOp / IfExp / lambda / comprehension / chained comparison in an expression position."""
+    BoolOp / IfExp / lambda / comprehension / chained comparison in an expression position;
+    tryp: probability that a compound statement is a try statement (1-3 except clauses with type
+    expressions of every operand shape, `as` names, else, finally, bodies that raise real exceptions)."""
 
-    def __init__(self, rnd, profile='model', lazy=0.0, maxdepth=3, walrus=0.0):
+    def __init__(self, rnd, profile='model', lazy=0.0, maxdepth=3, walrus=0.0, tryp=0.0):
         self.r = rnd
+        self.tryp = tryp         # probability that a compound statement is a try statement with 1-3 except clauses
+        self.bound = []          # names bound by the enclosing `except ... as name` clauses (readable in their bodies only)
         self.walrus = walrus     # probability of an assignment expression `(v := e)` in an operand position
         self.wide = (profile == 'wide')
         self.lazy = lazy
         self.maxdepth = maxdepth
 
     def name(self):
+        if self.bound and self.r.random() < 0.25:
+            return self.r.choice(self.bound)
         return self.r.choice(PARAMS)
 
     def const(self):
@@ -150,6 +158,8 @@ class Gen(object):
         r = self.r
         D = self.maxdepth
         k = r.random()
+        if depth > 0 and self.tryp and r.random() < self.tryp:
+            return self.try_stmt(depth, ind, in_loop)
         if depth <= 0 or k < 0.62:
             j = r.random()
             if j < 0.30:
@@ -209,10 +219,60 @@ class Gen(object):
                         it += ' as ' + self.name()
                 items.append(it)
             return [ind + 'with %s:' % ', '.join(items)] + self.block(depth - 1, r.randint(1, 2), ind + '  ', in_loop)
-        out = [ind + 'try:'] + self.block(depth - 1, r.randint(1, 2), ind + '  ', in_loop)
-        out += [ind + 'except Exception:'] + self.block(depth - 1, 1, ind + '  ', in_loop)
-        if r.random() < 0.4:
-            out += [ind + 'finally:'] + self.block(depth - 1, 1, ind + '  ', in_loop)
+        return self.try_stmt(depth, ind, in_loop)
+
+    # ---- try statements.  The type expression of an except clause is a LAZY position: Python evaluates it only
+    # while an exception propagates out of the body, after the body, clause by clause until one matches.  It is
+    # generated in every shape an operand can have: a name of a builtin class, an attribute load `v.Error` (an
+    # event whose result is a real exception class, see c18_runtime), an attribute load / call / subscript with
+    # operations below it, a tuple of those.
+    def handler_type(self, d):
+        r = self.r
+        k = r.random()
+        if k < 0.22:
+            return r.choice(EXC_NAMES)
+        if k < 0.45:
+            return '%s.Error' % self.name()
+        if k < 0.62:
+            return '%s.Error' % self.postfix_base(max(d, 1))
+        if k < 0.74:
+            return self.call(max(d, 1))
+        if k < 0.82:
+            return self.expr(max(d, 1))
+        elts = []
+        for _ in range(r.randint(1, 2)):
+            j = r.random()
+            elts.append('%s.Error' % self.name() if j < 0.45 else r.choice(EXC_NAMES) if j < 0.75 else self.call(max(d, 1)))
+        return '(%s,)' % ', '.join(elts)
+
+    def try_stmt(self, depth, ind, in_loop):
+        r = self.r
+        D = self.maxdepth
+        body = []
+        for _ in range(r.randint(1, 2)):
+            if r.random() < 0.3:
+                # an exception of a real class, so that clauses match / do not match / are never reached
+                body.append(ind + '  raise %s.Error%s' % (self.name(), '(%s)' % self.atom() if r.random() < 0.6 else ''))
+            else:
+                body += self.stmt(depth - 1, ind + '  ', in_loop)
+        out = [ind + 'try:'] + body
+        nh = r.choice([1, 1, 2, 2, 3]) if r.random() < 0.9 else 0
+        for i in range(nh):
+            if i == nh - 1 and r.random() < 0.12:
+                head, var = 'except:', None
+            else:
+                free = [v for v in EXC_VARS if v not in self.bound]
+                var = r.choice(free) if free and r.random() < 0.35 else None
+                head = 'except %s%s:' % (self.handler_type(D - 1), ' as ' + var if var else '')
+            if var:
+                self.bound.append(var)
+            out += [ind + head] + self.block(depth - 1, r.randint(1, 2), ind + '  ', in_loop)
+            if var:
+                self.bound.pop()
+        if nh and r.random() < 0.25:
+            out += [ind + 'else:'] + self.block(depth - 1, 1, ind + '  ', in_loop)
+        if nh == 0 or r.random() < 0.3:
+            out += [ind + 'finally:'] + self.block(depth - 1, 1, ind + '  ', False)
         return out
 
     def program(self, nstmts=None, depth=2):
@@ -455,8 +515,39 @@ DEEP_LAZY_PROGRAMS = [
 ]
 
 
-def gen_config(rnd, anf):
-    """None (default) or a random list of (pattern, directive)."""
+# try statements, x configurations: the default one, the depth-selective ones and the ones that name the positions of a
+# try statement.  Handler types: a call, an attribute load (a real exception class), depending on what the body binds,
+# with operations below (something to hoist out of them), in a tuple, after a clause that matches / does not match.
+TRY_PROGRAMS = [
+    'try:\n    x = f(a)\n  except g(b):\n    x = c\n  return x',
+    'try:\n    x = f(a)\n  except b.Error:\n    x = c\n  return x',
+    'try:\n    raise a.Error(b)\n  except c.Error:\n    x = d\n  except o.Error as e1:\n    x = e1\n  return x',
+    'try:\n    x = f(a)\n    y = x.m\n  except x.Error:\n    y = c\n  return y',
+    'try:\n    x = f(a)\n  except g(h(b)):\n    x = c\n  return x',
+    'try:\n    x = f(a)\n  except g(h(b)).Error:\n    pass\n  return x',
+    'try:\n    raise a.Error\n  except (KeyError, b.Error, g(c)):\n    return d\n  finally:\n    p(q)',
+    'for x in f(a):\n    try:\n      y = g(x)\n    except x.Error:\n      continue\n    else:\n      z = h(y)\n  return z',
+    'try:\n    x = f(a)\n  except Exception:\n    x = b\n  return x',
+    'try:\n    raise a.Error(b)\n  except Exception as e1:\n    return g(h(e1))',
+    'try:\n    try:\n      raise a.Error(b)\n    except c[d]:\n      x = p\n  except (q.Error,):\n    x = o\n  return x',
+    'with f(a) as x:\n    try:\n      y = x.m\n    except g(k0=x).Error as e2:\n      y = e2\n  return y',
+]
+
+
+def try_configs(anf):
+    P = anf.ASTEdgePattern
+    return [
+        ([(P(ast.ExceptHandler, 'type', anf.ANY), anf.REPLACE)], "[(anf.ASTEdgePattern(ast.ExceptHandler, 'type', anf.ANY), anf.REPLACE)]"),
+        ([(P(anf.ANY, 'type', ast.expr), anf.REPLACE)], "[(anf.ASTEdgePattern(anf.ANY, 'type', ast.expr), anf.REPLACE)]"),
+        ([(P(ast.Try, anf.ANY, anf.ANY), anf.REPLACE), (P(ast.ExceptHandler, anf.ANY, anf.ANY), anf.REPLACE)],
+         "[(anf.ASTEdgePattern(ast.Try, anf.ANY, anf.ANY), anf.REPLACE), (anf.ASTEdgePattern(ast.ExceptHandler, anf.ANY, anf.ANY), anf.REPLACE)]"),
+        ([(P(anf.ANY, anf.ANY, ast.expr), anf.REPLACE)], "[(anf.ASTEdgePattern(anf.ANY, anf.ANY, ast.expr), anf.REPLACE)]"),
+    ]
+
+
+def gen_config(rnd, anf, handlers=False):
+    """None (default) or a random list of (pattern, directive).  handlers: the slots also range over the node
+    classes / field names of try statements (a separate switch: the draws of the other streams stay what they were)."""
     k = rnd.random()
     if k < 0.45:
         return None, 'default'
@@ -464,6 +555,9 @@ def gen_config(rnd, anf):
                ast.expr, ast.stmt, ast.Tuple, ast.Dict, ast.Compare, (ast.Call, ast.BinOp), ast.With, ast.Raise]
     fields = [anf.ANY, anf.ANY, anf.ANY, 'args', 'func', 'value', 'left', 'right', 'test', 'iter', 'elts', 'keywords',
               'slice', 'values', 'keys', 'operand', 'comparators', 'items', 'exc']
+    if handlers:
+        parents += [ast.ExceptHandler, ast.ExceptHandler, ast.Try, (ast.Try, ast.ExceptHandler)]
+        fields += ['type', 'type', 'handlers']
     childs = [anf.ANY, anf.ANY, ast.expr, ast.Call, ast.Constant, ast.Name, (ast.Constant, ast.Name), ast.BinOp,
               ast.Attribute, ast.Tuple, ast.Subscript, (ast.Call, ast.Attribute)]
     rules = []
@@ -583,6 +677,12 @@ class Mirror(object):
     def named(self, parent, field, c):
         if c is None or self.is_trivial(c):
             return False
+        if isinstance(c, ast.Slice):
+            # a slice (and the index tuple of an extended slice) cannot stand alone: not the slice is named but,
+            # with the parent and field of the slice, its parts (_ensure_node_in_anf passes them through)
+            return any(self.named(parent, field, x) for x in (c.lower, c.upper, c.step))
+        if isinstance(c, ast.Tuple) and any(isinstance(x, ast.Slice) for x in c.elts):
+            return any(self.named(parent, field, x.value if isinstance(x, ast.Starred) else x) for x in c.elts)
         return bool(self.should(parent, field, c))
 
     @staticmethod
